@@ -1555,6 +1555,15 @@ impl<'a> Run<'a> {
         let sess = self.sess.take().unwrap();
         let queried = self.stats_queried;
         let by_drop = how % 2 == 1;
+        // C05: power cut in the middle of the unmount (every prefix of its device writes), see below
+        let watch_unmount = self.cfg.wants(Aspect::Stats) && !self.crash;
+        let pre_unmount = if watch_unmount { Some(self.dev.snapshot()) } else { None };
+        let wlog_before = self.dev.with(|d| {
+            if watch_unmount {
+                d.log_data = true;
+            }
+            d.wlog.len()
+        });
         let r = guard(move || {
             if by_drop {
                 drop(sess);
@@ -1572,6 +1581,13 @@ impl<'a> Run<'a> {
             }
             Caught::Ok(Ok(())) => {}
         }
+        if let Some(pre) = pre_unmount {
+            let writes: Vec<(u64, Vec<u8>)> = self.dev.with(|d| {
+                d.log_data = false;
+                d.wlog.split_off(wlog_before)
+            });
+            self.unmount_crash_points(pre, &writes)?;
+        }
         self.after_unmount_checks(free, queried)?;
         self.trace.hit(if by_drop { "remount_by_drop" } else { "remount" });
         self.mount()?;
@@ -1579,6 +1595,43 @@ impl<'a> Run<'a> {
             self.checkpoint("after remount")?;
         }
         Ok(true)
+    }
+
+    /// C05: "the count reported by the statistics call ALWAYS equals the number of free entries in the on-disk table".
+    /// The unmount writes the FS-info sector and clears the dirty bit; if power is lost after any prefix of those
+    /// device writes, the next session must still report the table's count (it either finds the volume dirty and
+    /// recounts, or finds it clean together with an information sector that is already up to date).
+    fn unmount_crash_points(&mut self, pre: Store, writes: &[(u64, Vec<u8>)]) -> VResult<()> {
+        if writes.is_empty() || writes.len() > 64 {
+            return Ok(());
+        }
+        let mut img = pre;
+        for p in 0..writes.len() {
+            // image after the first p writes (p = 0: nothing of the unmount reached the storage)
+            if p > 0 {
+                let (o, d) = &writes[p - 1];
+                img.write_at(*o, d);
+            }
+            let table_free = self.geom.count_free(&img);
+            let dev2 = MemDev::new(img.clone());
+            let clock2 = Clock::new(self.clock.now_ms());
+            let r = guard(move || {
+                let s2 = Session::mount(&dev2, &clock2, &MountOpts::default()).map_err(|e| format!("mount: {:?}", e))?;
+                let f = s2.fs().stats().map(|st| st.free_clusters() as u64).map_err(|e| format!("stats: {:?}", e));
+                s2.abandon();
+                f
+            });
+            self.trace.hit("unmount_crash_point_checked");
+            match r {
+                Caught::Ok(Ok(f)) if f == table_free => {}
+                Caught::Ok(Ok(f)) => {
+                    return Err(self.viol(Aspect::Stats, format!("power cut during unmount after {} of its {} device writes: the next session's stats() reports {} free clusters, the table has {}", p, writes.len(), f, table_free)));
+                }
+                Caught::Ok(Err(e)) => return Err(self.viol(Aspect::Stats, format!("power cut during unmount after {} of its {} device writes: {}", p, writes.len(), e))),
+                Caught::Panic(pm) => return Err(self.viol(Aspect::Panic, format!("power cut during unmount after {} of {} device writes: remount panicked: {}", p, writes.len(), pm))),
+            }
+        }
+        Ok(())
     }
 
     /// C04: with all handles dropped, the session's own recursive listing must equal (a) the listing of a second
